@@ -81,7 +81,7 @@ theorem isSuppressed_matched_iff (env : Env) (s : Suppr) (m : Msg) (hx : supprEx
   obtain ⟨⟨⟨hid, hsym⟩, hnb⟩, hne⟩ := hx
   unfold isSuppressed
   rw [symbolOk_eq hsym, glob_exact hid, hash_cond]
-  unfold Spec.matchesB Spec.locationMatches Spec.idMatches Spec.fileMatches
+  unfold Spec.matchesB Spec.documented Spec.idlessRule Spec.locationMatches Spec.idMatches Spec.fileMatches
   by_cases hm : s.type = .macro
   · simp only [hm, if_true]
     rw [chain_macro]
@@ -146,6 +146,37 @@ theorem isSuppressed_matched_iff (env : Env) (s : Suppr) (m : Msg) (hx : supprEx
       constructor
       · rintro ⟨-, h2, h3, ⟨h4, h5⟩, h7, h6⟩; exact ⟨⟨⟨⟨⟨h2, h7⟩, h3⟩, h4⟩, h6⟩, h5⟩
       · rintro ⟨⟨⟨⟨⟨h2, h7⟩, h3⟩, h4⟩, h6⟩, h5⟩; exact ⟨trivial, h2, h3, ⟨h4, h5⟩, h7, h6⟩
+
+theorem any_or_eq_contains (l : Str) :
+    l.any (fun c => decide (c = '?') || decide (c = '*')) = (l.contains '*' || l.contains '?') := by
+  induction l with
+  | nil => rfl
+  | cons a r ih =>
+    simp only [List.any_cons, ih, List.contains_cons]
+    have e1 : ('*' == a) = decide (a = '*') := by
+      by_cases h : a = '*'
+      · subst h; rfl
+      · have h' : ¬ ('*' = a) := fun x => h x.symm
+        simp [h, h']
+    have e2 : ('?' == a) = decide (a = '?') := by
+      by_cases h : a = '?'
+      · subst h; rfl
+      · have h' : ¬ ('?' = a) := fun x => h x.symm
+        simp [h, h']
+    rw [e1, e2]
+    cases decide (a = '*') <;> cases decide (a = '?') <;> cases r.contains '*' <;> cases r.contains '?' <;> rfl
+
+/-- the declarative `Spec.active` is what the implementation's loop header computes -/
+theorem active_eq_considered (g : Bool) (m : Msg) (s : Suppr) : Spec.active g m s = considered g m s := by
+  unfold Spec.active considered Spec.boundToOneFile isLocal isWildcard
+  rw [any_or_eq_contains]
+  by_cases hu : m.errorId = unmatchedId
+  · have : (s.errorId = m.errorId) ↔ (s.errorId = unmatchedId) := by rw [hu]
+    simp only [hu, bne_self_eq_false, Bool.false_or, decide_eq_decide.2 this]
+    cases g <;> cases s.fileName.isEmpty <;> cases s.fileName.contains '*' <;> cases s.fileName.contains '?' <;> simp
+  · have h1 : (m.errorId != unmatchedId) = true := by simpa using hu
+    simp only [h1, Bool.true_or, Bool.and_true]
+    cases g <;> cases s.fileName.isEmpty <;> cases s.fileName.contains '*' <;> cases s.fileName.contains '?' <;> simp
 
 /-- a match reported by the current code is always a match by the documented rules (no exactness needed) -/
 theorem isSuppressed_matched_sound_glob (s : Suppr) (m : Msg) :
@@ -741,5 +772,286 @@ theorem passesEl_nil (dfix : Bool) (env : Env) (cfg : GCfg) (nomsg : List Suppr)
     passesEl env cfg nomsg (relOf dfix env cfg nomsg ([], []) f) f = passes env cfg nomsg f := by
   unfold passesEl passes relOf Filters.sel
   cases useSupB dfix env cfg nomsg f <;> simp
+
+/-! ### the executor's gate and the composition worker ∘ executor -/
+
+/-- the finding as the executor sees it: no location macros -/
+def toMsgE (env : Env) (cfg : GCfg) (f : Finding) : Msg := toMsg env { cfg with locMacros := [] } f
+
+theorem toMsgE_eq (env : Env) (cfg : GCfg) (f : Finding) :
+    toMsgE env cfg f = { toMsg env cfg f with macroNames := [] } := by
+  unfold toMsgE toMsg
+  cases f.stack.getLast? with
+  | none => rfl
+  | some p => rfl
+
+/-- would the executor's `nomsg.isSuppressed(msg, {})` suppress the finding? -/
+def laterE (env : Env) (cfg : GCfg) (nomsg : List Suppr) (f : Finding) : Bool :=
+  anyMatch env true (toMsgE env cfg f) nomsg
+
+def eKeep (env : Env) (cfg : GCfg) (nomsg : List Suppr) (el : List Str) (o : Out) : Bool :=
+  o.f.internal || o.asInternal ||
+    (!laterE env cfg nomsg o.f && !o.f.text.isEmpty && (cfg.emitDuplicates || !el.contains o.f.text))
+
+def eEl (env : Env) (cfg : GCfg) (nomsg : List Suppr) (el : List Str) (o : Out) : List Str :=
+  if o.f.internal || o.asInternal || laterE env cfg nomsg o.f || o.f.text.isEmpty || cfg.emitDuplicates ||
+      el.contains o.f.text then el
+  else o.f.text :: el
+
+theorem anyMatch_nil_of_isEmpty (env : Env) (g : Bool) (m : Msg) (l : List Suppr) (h : l.isEmpty = true) :
+    anyMatch env g m l = false := by
+  have : l = [] := by simpa using h
+  subst this; rfl
+
+theorem hasToLog_spec (env : Env) (cfg : GCfg) (nomsg : List Suppr) (st : EState) (o : Out)
+    (hn : FlagEq st.nomsg nomsg) :
+    (hasToLog env cfg st o).1 = eKeep env cfg nomsg st.errorList o ∧
+    FlagEq (hasToLog env cfg st o).2.nomsg nomsg ∧
+    (hasToLog env cfg st o).2.errorList = eEl env cfg nomsg st.errorList o ∧
+    (hasToLog env cfg st o).2.kept = st.kept := by
+  by_cases hi : (o.f.internal || o.asInternal) = true
+  · have h1 : hasToLog env cfg st o = (true, st) := by unfold hasToLog; rw [if_pos hi]
+    rw [h1]
+    unfold eKeep eEl
+    refine ⟨?_, hn, ?_, rfl⟩
+    · simp only [hi, Bool.true_or]
+    · simp only [hi, Bool.true_or, if_true]
+  · unfold hasToLog eKeep eEl
+    simp only [hi, if_false, Bool.false_eq_true, Bool.false_or]
+    have hr1 : (if st.nomsg.isEmpty then (false, st.nomsg)
+        else listIsSuppressed env true (toMsg env { cfg with locMacros := [] } o.f) st.nomsg).1 = laterE env cfg nomsg o.f := by
+      unfold laterE toMsgE
+      rw [← anyMatch_congr env true _ hn]
+      split
+      · rename_i he; rw [anyMatch_nil_of_isEmpty env true _ _ he]
+      · rw [listIsSuppressed_fst]
+    have hr2 : FlagEq (if st.nomsg.isEmpty then (false, st.nomsg)
+        else listIsSuppressed env true (toMsg env { cfg with locMacros := [] } o.f) st.nomsg).2 nomsg := by
+      split
+      · exact hn
+      · exact FlagEq.trans (listIsSuppressed_snd _ _ _ _) hn
+    rw [hr1]
+    generalize (if st.nomsg.isEmpty then (false, st.nomsg)
+        else listIsSuppressed env true (toMsg env { cfg with locMacros := [] } o.f) st.nomsg).2 = nm at hr2 ⊢
+    cases laterE env cfg nomsg o.f <;> cases o.f.text.isEmpty <;> cases cfg.emitDuplicates <;>
+      cases hc : st.errorList.contains o.f.text <;>
+      simp only [hc, if_true, if_false, Bool.false_eq_true, Bool.not_true, Bool.not_false, Bool.true_and, Bool.false_and,
+        Bool.and_false, Bool.and_true, Bool.or_true, Bool.or_false, Bool.true_or, Bool.false_or] <;>
+      first
+        | exact ⟨rfl, hr2, rfl, rfl⟩
+        | exact ⟨trivial, hr2, trivial, trivial⟩
+        | (refine ⟨?_, hr2, ?_, ?_⟩ <;> first | rfl | trivial)
+
+/-- what the executor keeps, as a function of the (flag-erased) list -/
+def eAcc (env : Env) (cfg : GCfg) (nomsg : List Suppr) : List Str → List Out → List Out
+  | _, [] => []
+  | el, o :: r => (if eKeep env cfg nomsg el o then [o] else []) ++ eAcc env cfg nomsg (eEl env cfg nomsg el o) r
+
+theorem execFold_kept (env : Env) (cfg : GCfg) (nomsg : List Suppr) : ∀ (outs : List Out) (st : EState),
+    FlagEq st.nomsg nomsg →
+    (outs.foldl (execStep env cfg) st).kept = st.kept ++ eAcc env cfg nomsg st.errorList outs := by
+  intro outs
+  induction outs with
+  | nil => intro st _; simp [eAcc]
+  | cons o r ih =>
+    intro st hn
+    obtain ⟨h1, h2, h3, h4⟩ := hasToLog_spec env cfg nomsg st o hn
+    simp only [List.foldl_cons, eAcc]
+    have hst : FlagEq (execStep env cfg st o).nomsg nomsg ∧
+        (execStep env cfg st o).errorList = eEl env cfg nomsg st.errorList o ∧
+        (execStep env cfg st o).kept = st.kept ++ (if eKeep env cfg nomsg st.errorList o then [o] else []) := by
+      unfold execStep
+      by_cases hk : (hasToLog env cfg st o).1 = true
+      · simp only [hk, if_true]
+        rw [h1] at hk
+        exact ⟨h2, h3, by simp [hk, h4]⟩
+      · simp only [hk, if_false, Bool.false_eq_true]
+        rw [h1] at hk
+        exact ⟨h2, h3, by simp [hk, h4]⟩
+    rw [ih _ hst.1, hst.2.1, hst.2.2, List.append_assoc]
+
+theorem execFilter_kept (env : Env) (cfg : GCfg) (nomsg nomsg' : List Suppr) (outs : List Out) (hn : FlagEq nomsg' nomsg) :
+    (execFilter env cfg nomsg' outs).kept = eAcc env cfg nomsg [] outs := by
+  unfold execFilter
+  rw [execFold_kept env cfg nomsg outs _ hn]
+  rfl
+
+/-- the executor-side condition for a forwarded, unaltered finding -/
+def ePass (env : Env) (cfg : GCfg) (nomsg : List Suppr) (el : List Str) (f : Finding) : Bool :=
+  f.internal || (!laterE env cfg nomsg f && !f.text.isEmpty && (cfg.emitDuplicates || !el.contains f.text))
+
+theorem eEl_sub (env : Env) (cfg : GCfg) (nomsg : List Suppr) (el : List Str) (o : Out) (t : Str) (h : t ∈ el) :
+    t ∈ eEl env cfg nomsg el o := by
+  unfold eEl; split
+  · exact h
+  · exact List.mem_cons_of_mem _ h
+
+theorem eEl_new (env : Env) (cfg : GCfg) (nomsg : List Suppr) (el : List Str) (o : Out) (t : Str)
+    (h : t ∈ eEl env cfg nomsg el o) : t ∈ el ∨ (t = o.f.text ∧ o.asInternal = false ∧ cfg.emitDuplicates = false) := by
+  unfold eEl at h
+  split at h
+  · exact Or.inl h
+  · rename_i hc
+    simp only [Bool.or_eq_true, not_or, Bool.not_eq_true] at hc
+    rcases List.mem_cons.1 h with h | h
+    · exact Or.inr ⟨h, hc.1.1.1.1.2, hc.1.2⟩
+    · exact Or.inl h
+
+theorem ePass_mono (env : Env) (cfg : GCfg) (nomsg : List Suppr) (el el' : List Str) (f : Finding)
+    (hsub : ∀ t ∈ el, t ∈ el') (h : ePass env cfg nomsg el' f = true) : ePass env cfg nomsg el f = true := by
+  unfold ePass at h ⊢
+  by_cases hc : f.text ∈ el
+  · have := hsub _ hc
+    simpa [hc, this] using h
+  · revert h
+    simp only [hc, List.contains_iff_mem, decide_false, Bool.not_false, Bool.or_true, Bool.and_true, List.elem_eq_mem]
+    cases f.internal <;> cases laterE env cfg nomsg f <;> cases f.text.isEmpty <;> simp
+
+theorem ePass_free (env : Env) (cfg : GCfg) (nomsg : List Suppr) (el el' : List Str) (f : Finding)
+    (hn : f.text ∉ el') (h : ePass env cfg nomsg el f = true) : ePass env cfg nomsg el' f = true := by
+  unfold ePass at h ⊢
+  revert h
+  simp only [hn, List.contains_iff_mem, decide_false, Bool.not_false, Bool.or_true, Bool.and_true, List.elem_eq_mem]
+  cases f.internal <;> cases laterE env cfg nomsg f <;> cases f.text.isEmpty <;> simp
+
+theorem reported_keep (env : Env) (cfg : GCfg) (nomsg : List Suppr) (el : List Str) (o : Out) (f : Finding) :
+    Reported (if eKeep env cfg nomsg el o then [o] else []) f ↔
+      (o.f = f ∧ o.asInternal = false ∧ ePass env cfg nomsg el f = true) := by
+  unfold eKeep ePass
+  by_cases hf : o.f = f
+  · subst hf
+    cases ha : o.asInternal <;> cases hi : o.f.internal <;> cases hl : laterE env cfg nomsg o.f <;>
+      cases ht : o.f.text.isEmpty <;> cases he : cfg.emitDuplicates <;> cases hc : el.contains o.f.text <;>
+      simp [reported_singleton, reported_nil, ha]
+  · split <;> simp [reported_singleton, reported_nil, hf]
+
+/-- renderings identify findings among the forwarded messages -/
+def OutInj (outs : List Out) : Prop := ∀ o ∈ outs, ∀ o' ∈ outs, o.f.text = o'.f.text → o.f = o'.f
+
+theorem reported_eAcc (env : Env) (cfg : GCfg) (nomsg : List Suppr) : ∀ (outs : List Out) (el : List Str),
+    (cfg.emitDuplicates = true ∨ OutInj outs) →
+    ∀ f, Reported (eAcc env cfg nomsg el outs) f ↔ (Reported outs f ∧ ePass env cfg nomsg el f = true) := by
+  intro outs
+  induction outs with
+  | nil => intro el _ f; simp [eAcc, Reported]
+  | cons o r ih =>
+    intro el hd f
+    have hd' : cfg.emitDuplicates = true ∨ OutInj r := by
+      rcases hd with hd | hd
+      · exact Or.inl hd
+      · exact Or.inr (fun a ha b hb => hd a (List.mem_cons_of_mem _ ha) b (List.mem_cons_of_mem _ hb))
+    have hcons : Reported (o :: r) f ↔ ((o.f = f ∧ o.asInternal = false) ∨ Reported r f) := by
+      have := reported_append [o] r f
+      simp only [List.singleton_append] at this
+      rw [this, reported_singleton]
+    simp only [eAcc, reported_append, reported_keep, ih _ hd' f, hcons]
+    constructor
+    · rintro (⟨h1, h2, h3⟩ | ⟨h1, h2⟩)
+      · exact ⟨Or.inl ⟨h1, h2⟩, h3⟩
+      · exact ⟨Or.inr h1, ePass_mono env cfg nomsg el _ f (fun t ht => eEl_sub env cfg nomsg el o t ht) h2⟩
+    · rintro ⟨h1 | h1, h2⟩
+      · exact Or.inl ⟨h1.1, h1.2, h2⟩
+      · by_cases ho : o.f = f ∧ o.asInternal = false
+        · exact Or.inl ⟨ho.1, ho.2, h2⟩
+        · right
+          refine ⟨h1, ?_⟩
+          by_cases hc : f.text ∈ eEl env cfg nomsg el o
+          · rcases eEl_new env cfg nomsg el o _ hc with hc' | ⟨ht, hai, he⟩
+            · unfold ePass at h2 ⊢
+              simpa [hc, hc'] using h2
+            · rcases hd with hd | hd
+              · rw [hd] at he; cases he
+              · obtain ⟨o', ho', hf', _⟩ := h1
+                have : o.f = o'.f := hd o List.mem_cons_self o' (List.mem_cons_of_mem _ ho') (by rw [← ht, hf'])
+                exact absurd ⟨this.trans hf', hai⟩ ho
+          · exact ePass_free env cfg nomsg _ _ f hc h2
+
+/-- everything a logger forwards is a finding of the run -/
+theorem outAcc_mem (dfix : Bool) (env : Env) (cfg : GCfg) (nomsg : List Suppr) : ∀ (fs : List Finding) (ls : Filters),
+    ∀ o ∈ outAcc dfix env cfg nomsg ls fs, o.f ∈ fs := by
+  intro fs
+  induction fs with
+  | nil => intro ls o h; simp [outAcc] at h
+  | cons g r ih =>
+    intro ls o h
+    simp only [outAcc, List.mem_append] at h
+    rcases h with h | h
+    · have : o.f = g := by
+        unfold stepOut at h
+        split at h
+        · simp only [List.mem_singleton] at h; rw [h]
+        · split at h
+          · cases h
+          · simp only [List.mem_append] at h
+            rcases h with h | h
+            · split at h
+              · simp only [List.mem_singleton] at h; rw [h]
+              · cases h
+            · split at h
+              · cases h
+              · simp only [List.mem_singleton] at h; rw [h]
+      rw [this]; exact List.mem_cons_self
+    · exact List.mem_cons_of_mem _ (ih _ o h)
+
+theorem foldl_nomsg (dfix : Bool) (env : Env) (cfg : GCfg) : ∀ (fs : List Finding) (st : GState),
+    FlagEq (fs.foldl (reportErrG dfix env cfg) st).nomsg st.nomsg := by
+  intro fs
+  induction fs with
+  | nil => intro st; exact FlagEq.refl _
+  | cons f r ih =>
+    intro st
+    simp only [List.foldl_cons]
+    exact FlagEq.trans (ih _) (reportErrG_spec dfix env cfg st f).1
+
+theorem gateG_nomsg (dfix : Bool) (env : Env) (cfg : GCfg) (nomsg nofail : List Suppr) (fs : List Finding) :
+    FlagEq (gateG dfix env cfg nomsg nofail fs).nomsg nomsg := by
+  unfold gateG
+  exact foldl_nomsg dfix env cfg fs _
+
+/-- a non-macro suppression does not look at the macro names -/
+theorem isSuppressed_noMacro (env : Env) (s : Suppr) (m : Msg) (hs : s.type ≠ .macro) :
+    isSuppressed env s { m with macroNames := [] } = isSuppressed env s m := by
+  unfold isSuppressed symbolOk
+  simp [hs]
+
+theorem isSuppressed_macro_nil (env : Env) (s : Suppr) (m : Msg) (hs : s.type = .macro) :
+    isSuppressed env s { m with macroNames := [] } = .none := by
+  unfold isSuppressed
+  simp [hs]
+
+theorem considered_mono (m : Msg) (s : Suppr) (h : considered false m s = true) : considered true m s = true := by
+  unfold considered at h ⊢
+  simp only [Bool.false_or, Bool.and_eq_true] at h
+  simp [h.2]
+
+theorem considered_local (g : Bool) (m : Msg) (s : Suppr) (hl : isLocal s = true) :
+    considered g m s = considered true m s := by
+  unfold considered; simp [hl]
+
+/-- worker (local entries, with macros) or executor (all entries, without macros) ⇔ all entries with macros,
+    provided macro suppressions are bound to their file (they always are: they come from inline comments) -/
+theorem sup_local_or_later (env : Env) (cfg : GCfg) (nomsg : List Suppr) (f : Finding)
+    (hmac : ∀ s ∈ nomsg, s.type = .macro → isLocal s = true) :
+    (supB env { cfg with useGlobal := false } nomsg f || laterE env cfg nomsg f) = laterB env cfg nomsg f := by
+  apply Bool.eq_iff_iff.2
+  unfold supB laterE laterB
+  have hm : toMsg env { cfg with useGlobal := false } f = toMsg env cfg f := rfl
+  rw [hm, toMsgE_eq]
+  simp only [Bool.or_eq_true, anyMatch_iff]
+  constructor
+  · rintro (⟨s, hs, h1, h2⟩ | ⟨s, hs, h1, h2⟩)
+    · exact ⟨s, hs, considered_mono _ _ h1, h2⟩
+    · by_cases ht : s.type = .macro
+      · rw [isSuppressed_macro_nil env s _ ht] at h2; cases h2
+      · rw [isSuppressed_noMacro env s _ ht] at h2
+        exact ⟨s, hs, h1, h2⟩
+  · rintro ⟨s, hs, h1, h2⟩
+    by_cases ht : s.type = .macro
+    · left
+      refine ⟨s, hs, ?_, h2⟩
+      rw [considered_local false _ s (hmac s hs ht)]; exact h1
+    · right
+      refine ⟨s, hs, h1, ?_⟩
+      rw [isSuppressed_noMacro env s _ ht]; exact h2
 
 end Cppcheck.Suppress
